@@ -1267,16 +1267,32 @@ impl TensorStore {
                         positions,
                         values,
                     } => {
-                        // Load directly as sparse vector
+                        // Load directly as sparse vector. The parts come from the file: a
+                        // position outside the vector or a count mismatch is a corrupt
+                        // snapshot, reported as an error rather than a panic.
                         let pos_ids = tensor_compress::decompress_ids(&positions);
-                        #[allow(clippy::cast_possible_truncation)]
-                        // Sparse vector positions fit in u32
-                        let positions_u32: Vec<u32> = pos_ids.iter().map(|&p| p as u32).collect();
-                        TensorValue::Sparse(SparseVector::from_parts(
-                            dimension,
-                            positions_u32,
-                            values,
-                        ))
+                        let corrupt = |what: String| {
+                            SnapshotError::SerializationError(format!(
+                                "corrupt sparse vector in field '{field_name}' of '{}': {what}",
+                                entry.key
+                            ))
+                        };
+                        if pos_ids.len() != values.len() {
+                            return Err(corrupt(format!(
+                                "{} positions for {} values",
+                                pos_ids.len(),
+                                values.len()
+                            )));
+                        }
+                        let positions_u32 = pos_ids
+                            .iter()
+                            .map(|&p| u32::try_from(p))
+                            .collect::<std::result::Result<Vec<u32>, _>>()
+                            .map_err(|e| corrupt(e.to_string()))?;
+                        TensorValue::Sparse(
+                            SparseVector::try_from_parts(dimension, positions_u32, values)
+                                .map_err(|e| corrupt(e.to_string()))?,
+                        )
                     },
                     CompressedValue::VectorTT { .. } | CompressedValue::IdList(_) => {
                         let v = decompress_vector(&value)
